@@ -131,7 +131,20 @@ def bind(x, free, combo):
     return util.shallow_replace(lambda o: m.get(o) if isinstance(o, ev._LoopIndex) else None, x)
 
 
-def check_case(case, seed_key, res, tier):
+def check_case(case, seed_key, res, tier, _recheck=True):
+    nv = len(res.violations)
+    _check_case(case, seed_key, res, tier)
+    if _recheck and len(res.violations) > nv:
+        again = _dump_flaky(case, seed_key, res.violations[nv], res)
+        res.count('violations_reproduced_in_process' if again else 'violations_not_reproduced_in_process')
+        if not again:
+            # not reproducible on an immediate second run of the same case in the same process: recorded, not alarmed
+            v = res.violations.pop()
+            res.count('nonreproducible')
+            res.note('NON-REPRODUCIBLE: ' + v['monitor'] + ' | ' + v['detail'][:300])
+
+
+def _check_case(case, seed_key, res, tier):
     from nutils import evaluable as ev, debug_flags
     res.count('evaluations')
     evmon.reset_steps()
@@ -195,6 +208,10 @@ def check_case(case, seed_key, res, tier):
                     return ev.eval_once(n, _simplify=False, _optimize=False, arguments=_av)
                 p = check_meta(e, v, res, 'hook-' + name, shape_env)
                 if p:
+                    try:
+                        p += ' | node: ' + e.asciitree().replace('\n', ' // ')[:1500]
+                    except Exception:
+                        pass
                     res.violation('announced metadata differs from the evaluated array (observer hook)', pack(case, av), f'pipeline {name}: {p}',
                                   mechanism=evfind.classify_c06(e, p))
                     return
@@ -272,6 +289,20 @@ def gen_case(seed, i):
     return evgen.generate(rng, size=int(rng.integers(4, 22)), profile=profile)
 
 
+def _dump_flaky(case, seed_key, v1, res):
+    """a violation was seen: run the same case again immediately in this process and record both outcomes for study"""
+    import os, json, time
+    r2 = Result()
+    try:
+        check_case(case, seed_key, r2, 'quick', _recheck=False)
+    except Exception as e:
+        r2.note(f'recheck raised {type(e).__name__}: {e}')
+    os.makedirs('/var/tmp/flaky', exist_ok=True)
+    with open(f'/var/tmp/flaky/C06-{os.getpid()}-{int(time.time()*1000)}.json', 'w') as f:
+        json.dump(dict(seed_key=list(seed_key), first=v1, second=r2.violations[:1], desc=evgen.describe(case)), f, indent=1, default=str)
+    return bool(r2.violations)
+
+
 def run_units(units, ctx):
     evgen.self_test()
     setup()
@@ -316,7 +347,7 @@ def finalize(m, tier, seed):
                shape_entries=dict(constant=c.get('shape_entries_constant', 0), computed=c.get('shape_entries_computed', 0), not_evaluable=c.get('shape_entries_not_evaluable', 0)),
                argument_experiments=c.get('argument_experiments', 0), assignments=c.get('assignments', 0), out_of_domain=c.get('out_of_domain', 0),
                skipped_c01_event=c.get('skipped_c01_event', 0), other_exception_in_pipeline=c.get('other_exception_in_pipeline', 0),
-               walk_not_evaluable=c.get('walk_not_evaluable', 0), skipped_deadline=c.get('skipped_deadline', 0))
+               walk_not_evaluable=c.get('walk_not_evaluable', 0), skipped_deadline=c.get('skipped_deadline', 0), nonreproducible=c.get('nonreproducible', 0))
     inc = None
     if cov['evaluations'] < 0.5 * scaled(NCASES[tier]):
         inc = f"only {cov['evaluations']} programs ran before the deadline"
@@ -324,6 +355,8 @@ def finalize(m, tier, seed):
         inc = 'observer hook never fired'
     elif cov['intbounds_checked'] < 1000:
         inc = 'too few integer range observations'
+    elif cov['nonreproducible']:
+        inc = f"{cov['nonreproducible']} violation(s) did not reproduce on an immediate second run in the same process (see notes)"
     elif cov['argument_experiments'] < 100:
         inc = 'too few argument experiments'
     return dict(coverage=cov, inconclusive=inc)
